@@ -14,8 +14,12 @@ import NeoModel.Model.Queue
 import NeoModel.Proofs.QueueChain
 import NeoModel.Proofs.QueueReach
 import NeoModel.Proofs.QueueCounters
+import NeoModel.Proofs.QueueFair
 import NeoModel.Model.StateSync
 import NeoModel.Proofs.StateSyncRestore
+import NeoModel.Proofs.StateSyncRebuild
+import NeoModel.Proofs.StateSyncMerkle
+import NeoModel.Proofs.StateSyncItems
 namespace NeoModel.Queue
 
 private def el (i t : Nat) : Elem := { idx := i, tag := t, ok := true }
@@ -142,6 +146,43 @@ theorem queue_reaches_stable (cap h0 : Nat) (hc : 0 < cap) (as bs : List Act)
     rw [hexec]; exact gs s bs hcalm.2 g
   exact g'.go
 
+/-- C20 (queue, fair progress under interference): take any state reached by a calm interleaving in which
+every index in `(height, m]` has a valid element in its slot and `Run` is inside its loop or has a signal
+pending. Let the parties go on in ANY calm way — producers putting anything with any stale height, other
+writers adding blocks (outside `Run`'s read-to-lock window), `Run` stepping whenever it is scheduled. As soon
+as `Run` has been scheduled for `5·(m − height) + 7` steps, whatever happened in between, the chain is at
+height `m` or beyond. (No assumption on the order or number of the other parties' steps: the only fairness
+needed is that `Run` gets its steps.) -/
+theorem queue_reaches_fair (cap h0 : Nat) (hc : 0 < cap) (as bs : List Act)
+    (hcalm : Calm (init cap h0) (as ++ bs)) (m : Nat) :
+    let s := exec (init cap h0) as
+    Filled s m → Active s → 5 * (m - s.height) + 7 ≤ bs.count .run →
+    m ≤ (exec (init cap h0) (as ++ bs)).height := by
+  intro s hf ha hn
+  have hexec : ∀ (s : State) (as bs : List Act), exec s (as ++ bs) = exec (exec s as) bs := by
+    intro s as bs; induction as generalizing s with
+    | nil => rfl
+    | cons a r ih => exact ih _
+  have hnd : ∀ (t : State) (bs : List Act), Calm t bs → t.discarded = false → (exec t bs).discarded = false := by
+    intro t bs; induction bs generalizing t with
+    | nil => intro _ h; exact h
+    | cons a r ih => intro hc' h; exact ih _ hc'.2.2 (nd_apply t a hc'.2.1 h)
+  rw [calm_append] at hcalm
+  have g : Good s m :=
+    ⟨inv_exec _ as (inv_init cap h0 hc), fresh_exec _ as (inv_init cap h0 hc) (fresh_init cap h0) hcalm.1,
+     hnd _ as hcalm.1 rfl, fun _ => ⟨hf, ha⟩⟩
+  rw [hexec]
+  exact reaches_fair s m bs g hcalm.2 hn
+
+-- non-vacuity: 12 and 13 queued, 11 arrives late, producers and another writer interfere; 22 Run steps
+example :
+    let as : List Act := [.run, .put (el 12 0) 10, .put (el 13 1) 10, .put (el 11 2) 10]
+    let bs : List Act := [.run, .put (el 14 3) 10, .run, .run, .adv, .run, .run, .put (el 11 4) 10, .run, .run,
+      .run, .run, .run, .put (el 30 5) 11, .run, .run, .run, .run, .run, .run, .run, .run, .run, .run, .run, .run, .run, .run]
+    Calm (init 4 10) (as ++ bs) ∧ 5 * (13 - (exec (init 4 10) as).height) + 7 ≤ bs.count .run ∧
+    13 ≤ (exec (init 4 10) (as ++ bs)).height := by
+  refine ⟨(calm_iff _ _).2 (by decide), by decide, by decide⟩
+
 -- non-vacuity of `queue_reaches`/`queue_reaches_stable`: 11,12,13 queued behind a sleeping `Run` with a signal
 example :
     let as : List Act := [.run, .put (el 12 0) 10, .put (el 13 1) 10, .put (el 11 2) 10]
@@ -261,54 +302,55 @@ def recv (H : SNode → Hash) : Option SNode → Item
   | some n => .node (H n) n
   | none => .garbage
 
-/-
-Full statement (C20 b): for every delivery order, batching and duplication of the nodes of trie `t`, every
-injection of wrong data and every restart point, the sync ends with store ⊇ nodes of `t` with the reference
-counts of C11, temporary storage = `lookup t`, and never accepts a node whose hash is not requested.
+/-- What happens to the module over its lifetime: `AddMPTNodes` calls with whatever peers send, and
+restarts (module re-created from the DB). -/
+def recvEv (H : SNode → Hash) : Option (List (Option SNode)) → Ev
+  | some items => .batch (items.map (recv H))
+  | none => .restart
 
-Proved below (`billet_restore_exact_partial`): all of it for arbitrary delivery sequences and batches with
-arbitrary wrong data in between, over the pool-level model, for a collision-free hash `H`.
-Missing: (1) restart points — that the pool reconstruction of `defineSyncStage` (`rebuild`) returns exactly
-the pending set is not proved; it is executed by the driver and compared with the real module at every
-restart of the `sync` stream (that comparison found the panic fixed by 0dd24d5, see the example below);
-(2) `Billet.RestoreHashNode`'s in-memory walk/collapse is represented by its contract, its agreement with
-the real billet is established by the `sync` stream only; (3) the storage-item mode.
--/
-
-/-- C20 (state sync, exactness). `db` is the node table of the source trie (well-formed as every MPT is),
-`H` a hash function that is collision-free and under which `db` is keyed. Feed the module ANY batches of
-ANY items — trie nodes in any order, duplicated, not yet requested, foreign nodes, garbage. Then
-(1) every `(hash, path)` ever restored is a position of the trie, each at most once, and the reference
-counter of a hash is the number of its restored positions; the temporary storage holds exactly the leaf
-values of the restored positions;
-(2) once the pool is empty, the restored positions are exactly the positions of the trie: every node of
-the trie is in the store, the counter of `h` equals the number of positions of `h`, and the temporary
-storage is exactly the key-value content of the trie. -/
-theorem billet_restore_exact_partial (H : SNode → Hash) (hinj : ∀ a b, H a = H b → a = b)
+/-- C20 (state sync, exactness — every delivery order × batching × duplication × wrong data × restart
+point). `db` is the node table of the source trie (well-formed as every MPT is, `wf`; acyclic, `hrk`),
+`H` a collision-free hash under which `db` is keyed, `fuel` above the depth of the trie (the Go code
+recurses without a bound). Feed the module ANY sequence of events: batches of ANY items — trie nodes in
+any order, duplicated, not yet requested, foreign nodes, undecodable bytes — and restarts, at which the
+pool is rebuilt from the store by `defineSyncStage`'s traversal (`rebuild`). Then
+(1) every `(hash, path)` ever restored is a position of the trie, each at most once; the reference counter
+of a hash is the number of its restored positions; the temporary storage holds exactly the leaf values of
+the restored positions; and no pending position has its node in the store already;
+(2) once the pool is empty, the restored positions are exactly the positions of the trie: every node of the
+trie is in the store, the counter of `h` equals the number of positions of `h`, and the temporary storage is
+exactly the key-value content of the trie.
+(`Billet.RestoreHashNode`'s walk through the in-memory billet is represented by its contract, see
+Model/StateSync.lean; its agreement with the real billet is what the `sync` stream checks.) -/
+theorem billet_restore_exact (H : SNode → Hash) (hinj : ∀ a b, H a = H b → a = b)
     (db : Hash → Option SNode) (root : Hash) (hkey : ∀ h m, db h = some m → H m = h)
-    (wf : WF db root) (fuel : Nat) (bs : List (List (Option SNode))) :
-    let s := batches db fuel (MS.init root) (bs.map (List.map (recv H)))
+    (wf : WF db root) (rk : Hash → Nat) (hrk : Ranked db rk) (fuel : Nat)
+    (hfuel : ∀ h m, db h = some m → rk h < fuel) (evs : List (Option (List (Option SNode)))) :
+    let s := runEvs db fuel root (MS.init root) (evs.map (recvEv H))
     (∀ x ∈ s.done, Pos db root x.1 x.2) ∧ s.done.Nodup ∧
     (∀ h, s.refs h = (s.done.filter (fun x => x.1 == h)).length) ∧
     (∀ p v, (p, v) ∈ s.temp ↔ ∃ h n, (h, p) ∈ s.done ∧ db h = some n ∧ n.val = some v) ∧
+    (∀ x ∈ s.pool, s.refs x.1 = 0) ∧
     (s.pool = [] →
       (∀ h p, Pos db root h p ↔ (h, p) ∈ s.done) ∧
       (∀ h p, Pos db root h p → 0 < s.refs h) ∧
       (∀ p v, (p, v) ∈ s.temp ↔ ∃ h n, Pos db root h p ∧ db h = some n ∧ n.val = some v)) := by
   intro s
-  have hok : ∀ b ∈ bs.map (List.map (recv H)), ∀ it ∈ b, ItemOk db it := by
-    intro b hb it hit
-    simp only [List.mem_map] at hb
-    obtain ⟨b0, _, rfl⟩ := hb
-    simp only [List.mem_map] at hit
-    obtain ⟨x, _, rfl⟩ := hit
-    cases x with
+  have hok : ∀ e ∈ evs.map (recvEv H), EvOk db e := by
+    intro e he
+    simp only [List.mem_map] at he
+    obtain ⟨e0, _, rfl⟩ := he
+    cases e0 with
     | none => trivial
-    | some n =>
-      intro m hm
-      exact hinj _ _ (hkey _ m hm).symm
-  have hi : Inv db root s := inv_batches db root wf fuel _ _ (inv_init db root) hok
-  refine ⟨hi.donePos, hi.doneNodup, hi.refsEq, hi.tempEq, ?_⟩
+    | some items =>
+      intro it hit
+      simp only [List.mem_map] at hit
+      obtain ⟨x, _, rfl⟩ := hit
+      cases x with
+      | none => trivial
+      | some n => intro m hm; exact hinj _ _ (hkey _ m hm).symm
+  obtain ⟨hi, hcl⟩ := inv_runEvs db root wf rk hrk fuel hfuel _ _ (inv_init db root) (clean_init root) hok
+  refine ⟨hi.donePos, hi.doneNodup, hi.refsEq, hi.tempEq, hcl, ?_⟩
   intro he
   have hall : ∀ h p, Pos db root h p ↔ (h, p) ∈ s.done :=
     fun h p => ⟨complete db root s hi he h p, fun hd => hi.donePos _ hd⟩
@@ -316,12 +358,41 @@ theorem billet_restore_exact_partial (H : SNode → Hash) (hinj : ∀ a b, H a =
   · intro h p hp
     rw [hi.refsEq]
     apply List.length_pos_of_mem (a := (h, p))
-    simp [(hall h p).1 hp]
+    have hm : (h, p) ∈ s.done := (hall h p).1 hp
+    simp only [List.mem_filter, beq_self_eq_true, and_true]
+    exact hm
   · intro p v
     rw [hi.tempEq]
     constructor
     · rintro ⟨h, n, hd, hn, hv⟩; exact ⟨h, n, (hall h p).2 hd, hn, hv⟩
     · rintro ⟨h, n, hp, hn, hv⟩; exact ⟨h, n, (hall h p).1 hp, hn, hv⟩
+
+/-- C20 (state sync, restart points): at every point of every such history, the pool that
+`defineSyncStage` reconstructs from the store (Billet.Traverse over the stored nodes with the callback as
+fixed in 0dd24d5) is exactly the pool the uninterrupted module holds — the same set, without duplicates.
+A restart therefore loses nothing and asks for nothing twice. -/
+theorem rebuild_exact (H : SNode → Hash) (hinj : ∀ a b, H a = H b → a = b)
+    (db : Hash → Option SNode) (root : Hash) (hkey : ∀ h m, db h = some m → H m = h)
+    (wf : WF db root) (rk : Hash → Nat) (hrk : Ranked db rk) (fuel : Nat)
+    (hfuel : ∀ h m, db h = some m → rk h < fuel) (evs : List (Option (List (Option SNode)))) :
+    let s := runEvs db fuel root (MS.init root) (evs.map (recvEv H))
+    (∀ x, x ∈ (rebuild db fuel root s).pool ↔ x ∈ s.pool) ∧ (rebuild db fuel root s).pool.Nodup := by
+  intro s
+  have hok : ∀ e ∈ evs.map (recvEv H), EvOk db e := by
+    intro e he
+    simp only [List.mem_map] at he
+    obtain ⟨e0, _, rfl⟩ := he
+    cases e0 with
+    | none => trivial
+    | some items =>
+      intro it hit
+      simp only [List.mem_map] at hit
+      obtain ⟨x, _, rfl⟩ := hit
+      cases x with
+      | none => trivial
+      | some n => intro m hm; exact hinj _ _ (hkey _ m hm).symm
+  obtain ⟨hi, hcl⟩ := inv_runEvs db root wf rk hrk fuel hfuel _ _ (inv_init db root) (clean_init root) hok
+  exact rebuild_pool db root wf rk hrk fuel s hi hcl hfuel
 
 /-- C20 (state sync, wrong data is rejected and harmless): a node whose hash the module does not ask for
 (foreign, not yet requested, already restored — whatever its content) changes nothing at all; undecodable
@@ -354,6 +425,120 @@ example :
     let n (i : Nat) : Item := match exDb i with | some x => .node i x | none => .garbage
     let s := batches exDb 5 (MS.init 0) [[n 0, n 2]]
     s.pool = [(1, [0])] ∧ (rebuild exDb 5 0 s).pool = [(1, [0])] := by decide
+
+-- non-vacuity of `billet_restore_exact` with restarts: restart, root, restart, leaf 2 twice, garbage, restart, leaf 1
+example :
+    let n (i : Nat) : Item := match exDb i with | some x => .node i x | none => .garbage
+    let s := runEvs exDb 5 0 (MS.init 0)
+      [.restart, .batch [n 0], .restart, .batch [n 2, n 2, .garbage, n 1], .restart, .batch [n 1]]
+    s.pool = [] ∧ s.done = [(0, []), (2, [1]), (2, [2]), (1, [0])] ∧ s.refs 2 = 2 := by decide
+
+-- the example table meets the shape hypotheses (rank: root 1, leaves 0)
+example : Ranked exDb (fun h => if h = 0 then 1 else 0) := by
+  intro h n k hn hk
+  match h, hn with
+  | 0, hn => cases hn; simp at hk; rcases hk with rfl | rfl | rfl <;> decide
+  | 1, hn => cases hn; cases hk
+  | 2, hn => cases hn; cases hk
+
+/-! ### Storage-item mode (raw contract storage items, checkpoint + intermediate root)
+
+Over the C10 trie model `NeoModel.Mpt` (local trie = `Mpt.Node`, MapToMPTBatch + PutBatch, StateRoot).
+`hcommit` is the collision-freeness of the state-root commitment on well-formed tries (different tries have
+different roots); `Mpt.canonical`, `Mpt.lookup_putBatch_map`, `Mpt.wf_putBatch` are C10's theorems. -/
+
+/-- C20 (storage-item mode, exactness). `t0` is the state trie at the sync point and `rootHash H t0` the root
+the module was given. After ANY sequence of `AddContractStorageItems` batches — any items, any order, keys
+repeated within and across batches, wrong values — and restarts (stage recomputed from the persisted
+checkpoint, a no-op as shown in `restartItems_id`): the local trie is well-formed and has exactly the
+contents of the temporary storage, and — once a batch was stored — the module reports "in sync"
+(`computedRoot = root`) iff the temporary storage is exactly the content of `t0`. A wrong or missing item
+therefore never ends in "in sync", and a complete correct set always does. -/
+theorem storage_mode_exact (H : Bytes → Bytes) (t0 : Mpt.Node) (hw : Mpt.WF t0)
+    (hcommit : ∀ a b, Mpt.WF a → Mpt.WF b → Mpt.rootHash H a = Mpt.rootHash H b → a = b)
+    (evs : List ItemEv) :
+    let s := runItemEvs H (Mpt.rootHash H t0) (ItemSt.init Mpt.Node.empty) evs
+    Mpt.WF s.trie ∧ (∀ q, Mpt.lookup s.trie q = s.temp q) ∧ restartItems s = s ∧
+    (s.synced = true → s.ckpt ≠ none) ∧
+    (s.ckpt ≠ none → (s.synced = true ↔ ∀ q, s.temp q = Mpt.lookup t0 q)) := by
+  intro s
+  have hi : ItemInv H (Mpt.rootHash H t0) s := itemInv_run H _ _ evs (itemInv_init H _)
+  exact ⟨hi.wf, hi.same, restartItems_id H _ s hi, fun h => (hi.stage.1 h).1,
+    fun hc => synced_iff H t0 hw hcommit s hi hc⟩
+
+-- non-vacuity: for any commitment-collision-free `H`, a restart and then the two items of a two-key state
+-- (in the "wrong" order, one of them twice) end in sync
+example (H : Bytes → Bytes)
+    (hcommit : ∀ a b, Mpt.WF a → Mpt.WF b → Mpt.rootHash H a = Mpt.rootHash H b → a = b) :
+    let t0 := Mpt.put (Mpt.put .empty [1, 2] [7]) [1, 3] [8]
+    (runItemEvs H (Mpt.rootHash H t0) (ItemSt.init Mpt.Node.empty)
+      [.restart, .batch [([1, 3], [9]), ([1, 3], [8]), ([1, 2], [7])]]).synced = true := by
+  intro t0
+  have hw : Mpt.WF t0 := Mpt.wf_put _ _ _ (Mpt.wf_put _ _ _ (by simp [Mpt.WF]))
+  have h := storage_mode_exact H t0 hw hcommit [.restart, .batch [([1, 3], [9]), ([1, 3], [8]), ([1, 2], [7])]]
+  refine (h.2.2.2.2 ?_).2 ?_
+  · simp [runItemEvs, runItemEv, restartItems, addItems, ItemSt.init]
+  · intro q
+    have ht : (runItemEvs H (Mpt.rootHash H t0) (ItemSt.init Mpt.Node.empty)
+        [.restart, .batch [([1, 3], [9]), ([1, 3], [8]), ([1, 2], [7])]]).temp q =
+        ((goMap [(([1, 3] : Mpt.Path), ([9] : Mpt.Val)), ([1, 3], [8]), ([1, 2], [7])]).lookup q).or none := by
+      simp [runItemEvs, runItemEv, restartItems, addItems, ItemSt.init]
+    rw [ht]
+    simp only [t0, Mpt.lookup_put]
+    by_cases h1 : q = [1, 3]
+    · subst h1; decide
+    · by_cases h2 : q = [1, 2]
+      · subst h2; decide
+      · have e1 : (q == [1, 3]) = false := by simpa using h1
+        have e2 : (q == [1, 2]) = false := by simpa using h2
+        simp [goMap, List.lookup, e1, e2, h1, h2, Mpt.lookup]
+
+/-- C20 (storage-item mode, key order with restarts). The NeoFS state fetcher streams the items of the state
+object in their order (`items`, pairwise different keys), in batches of any sizes, and after every restart
+resumes behind the last stored key. For every such run: (1) "in sync" implies the temporary storage is
+exactly the content of `t0`; (2) if the object's content is the content of `t0`, then once the stream is
+exhausted the module is in sync — however the stream was cut into batches and wherever the restarts fell;
+equivalently, if the module is not in sync at the end of the stream, the object was wrong. -/
+theorem storage_mode_ordered (H : Bytes → Bytes) (t0 : Mpt.Node) (hw : Mpt.WF t0)
+    (hcommit : ∀ a b, Mpt.WF a → Mpt.WF b → Mpt.rootHash H a = Mpt.rootHash H b → a = b)
+    (items : List (Mpt.Path × Mpt.Val)) (hne : items ≠ []) (hnd : (items.map (·.1)).Nodup)
+    (evs : List StreamEv) :
+    let f := streamRun H (Mpt.rootHash H t0) items evs
+    (f.s.synced = true → ∀ q, f.s.temp q = Mpt.lookup t0 q) ∧
+    (f.pending = [] → (∀ q, items.lookup q = Mpt.lookup t0 q) → f.s.synced = true) := by
+  intro f
+  have hi := streamInv_run H (Mpt.rootHash H t0) items hnd evs
+  constructor
+  · intro hs
+    exact (synced_iff H t0 hw hcommit f.s hi.inv ((hi.inv.stage.1 hs).1)).1 hs
+  · intro hp hall
+    cases hs : f.s.synced with
+    | true => rfl
+    | false =>
+      obtain ⟨pos, h1, _, h3, h4⟩ := hi.pos hs
+      have hp' : items.drop pos = [] := by rw [← h1]; exact hp
+      have hlen : items.length ≤ pos := List.drop_eq_nil_iff.1 hp'
+      have htake : items.take pos = items := List.take_of_length_le hlen
+      rw [htake] at h3 h4
+      have := (synced_iff H t0 hw hcommit f.s hi.inv (h4 hne)).2 (fun q => by rw [h3 q, hall q])
+      rw [hs] at this; exact this
+
+/-- C20 (state sync, blocks stage): only the block's own transaction list is accepted. `txh i` is the hash
+of transaction `i`, `h2 l r` the hash of an inner Merkle node, `z` the zero hash; collision-freeness of
+these hashes (different Merkle terms have different values) is the hypothesis `hcf`. For a block whose
+transactions `orig` are pairwise different, `AddBlock`'s body check — `CalcMerkleRoot` of the delivered
+transaction hashes (with its duplication of the last element of an odd level) equals the header's root,
+and no transaction hash occurs twice — passes for `body` iff `body = orig`. So under the genuine header a
+stripped, shortened, extended, reordered, partly or wholly foreign list is rejected, and so is the list with
+a repeated tail whose Merkle root coincides with the header's. -/
+theorem acceptsBody_iff (txh : Nat → Nat) (h2 : Nat → Nat → Nat) (z : Nat) (hcf : CollisionFree txh h2 z)
+    (orig body : List Nat) (ho : orig.Nodup) : acceptsBodyH txh h2 z orig body = true ↔ body = orig :=
+  acceptsBodyH_iff' txh h2 z hcf orig body ho
+
+-- non-vacuity: the collision-freeness hypothesis is satisfiable, and then e.g. the dropped-transaction body fails
+example : acceptsBodyH (fun i => 2 * i + 1) (fun a b => 2 * Nat.pair a b + 2) 0 [0, 1, 2] [0, 1] = false := by
+  have := (acceptsBody_iff _ _ 0 collisionFree_example [0, 1, 2] [0, 1] (by decide)).not.2 (by decide)
+  simpa using this
 
 -- Regression example for the defect fixed by 6817c0b (found by this check as tampered-block-accepted-dup-last):
 -- `CalcMerkleRoot` duplicates the last hash of an odd level, so for a block `[0,1,2]` the list `[0,1,2,2]`
